@@ -122,6 +122,51 @@ def desc_compatible(t, v, world):
     return ot is not None and subtype_of(tmap, ot, t[1])
 
 
+CONST_KINDS = ("int", "real", "bool", "o")
+
+
+def value_fault(R, op, world):
+    """Does this operation try to store an incompatible (or non-constant) value ON THIS
+    REPLICA?  Decided from the data with the harness relation, never from the generator's
+    intention (the minimiser and one-sided operations can change what an operation means).
+    Returns None or a reason."""
+    k = op["op"]
+    ftypes = {f["name"]: f["type"] for f in world["fluents"]}
+    try:
+        if k == "set_init":
+            t = ftypes[op["fluent"][1]]
+            v = op["value"]
+            if v[0] not in CONST_KINDS:
+                return "non-constant initial value"
+            return None if desc_compatible(t, v, world) else "incompatible initial value"
+        if k == "add_fluent" and op.get("default") is not None:
+            return None if desc_compatible(op["fluent"]["type"], op["default"], world) else "incompatible default"
+        if k in ("act_add_effect", "add_timed_effect"):
+            ed = op["effect"]
+            if ed["value"][0] in CONST_KINDS:
+                t = ftypes[ed["fluent"][1]]
+                if ed.get("kind", "assign") != "assign" and ed["value"][0] in ("int", "real") and t[0] in ("int", "real"):
+                    return None  # an increment is not a value of the fluent: only its kind is judged
+                return None if desc_compatible(t, ed["value"], world) else "incompatible effect value"
+            return None
+        if k == "action_instance":
+            if not R.p.has_action(op["action"]):
+                return None
+            a = R.p.action(op["action"])
+            if len(a.parameters) != len(op["params"]):
+                return None
+            for prm, v in zip(a.parameters, op["params"]):
+                if v[0] not in CONST_KINDS:
+                    return None
+                node = R.W.expr(v)
+                if compatible(prm.type, node) is not None:
+                    return "incompatible action-instance parameter"
+            return None
+    except (KeyError, IndexError, BuildError):
+        return None
+    return None
+
+
 def scope_of(action):
     return {p.name: p for p in action.parameters}
 
@@ -894,6 +939,7 @@ class ModelHist(Engine):
                 continue
             others = [r for r in reps if r not in to]
             snaps_before = {r: snapshot(reps[r].p) for r in reps}
+            vfault = {t: value_fault(reps[t], op, script["world"]) for t in to}
             results = {}
             for t in list(to):
                 try:
@@ -940,12 +986,12 @@ class ModelHist(Engine):
             # ---- C23: stored values, atomicity of value-faulty operations
             for t in to:
                 res = results[t]
-                if op.get("faulty") in ("value", "nonconstant"):
-                    ctx.faults_cfg["reject:" + op["faulty"]] += 1
+                if vfault.get(t):
+                    ctx.faults_cfg["reject:value"] += 1
                     if res[0] == "exc":
-                        ctx.faults_fired["reject:" + op["faulty"]] += 1
+                        ctx.faults_fired["reject:value"] += 1
                     ctx.check("C23.rejects-incompatible", res[0] == "exc",
-                              f"op {i} ({k}) stores an incompatible value ({op.get('why')}): "
+                              f"op {i} ({k}) on {t} stores an incompatible value ({vfault[t]}): "
                               f"{json.dumps({x: y for x, y in op.items() if x != 'to'})[:300]} was accepted",
                               cls="accepted-" + k)
                     if res[0] == "exc":
